@@ -11,6 +11,8 @@
 #   params   argument vectors for interp.Params
 #   slice    ${X:offset:length} as offset x length over {0 1 3 -1 -4 99 -99 empty} (length also absent) on
 #            scalars of several lengths, a positional parameter, array elements, ${a[@]:o:l}, ${@:o:l}, quoted/unquoted
+#   arith    every binary / assignment operator x edge operands (0, -1, +-64, 64-bit limits, empty, unset,
+#            expression-valued name, array element, bad octal) in $(( )), (( )), let, for (( )), on scalars and elements
 #   syntax   statements that parse in some variant (zsh/mksh/bats constructs the interpreter does
 #            not implement, edge values of expansions/arithmetic/redirections) x 9 contexts
 # Every vector is run in-process on the real interpreter under recover() with a timeout (Go engines
@@ -186,6 +188,8 @@ def run(ck):
         progs.append((v, "syntax: " + " ;; ".join(c[:40] for c in v["cons"]), wrap(tpl, v["ctx"], prelude, "\n".join(v["cons"])), None))
     for v in fam.get("slice", []):
         progs.append((v, "slice", "\n".join(v["prog"]) + "\n", None))
+    for v in fam.get("arith", []):
+        progs.append((v, "arith %s" % v["form"], "\n".join(v["prog"]) + "\n", None))
     for v in fam.get("count", []):
         src = "\n".join(v["prog"]).replace("@ARGS@", argtext(v["argv"])) + "\n"
         progs.append((v, "builtin=%s" % v["name"], src, "".join(l + "\n" for l in v["exp"]) if v["scope"] else None))
